@@ -50,7 +50,19 @@ def cases(tier, rng):
         down = rng.choice([[], [], [['count', False]], [['to_list']], [['scan', ['add'], 0, False, None]], [['last']], [['lag', 1]]])
         if h in (['err_map_name'], ['err_map', None]) and down and down[0][0] == 'scan':
             down = [['to_list']]
-        pipe = op + ([h] if h else []) + (down if h else [])
+        # without a handler the error travels through whatever follows (per-key operators, or a splitter around them)
+        # and must still surface as on_error at the demultiplexer, at the step of the first failing item
+        if h is None and rng.random() < 0.6:
+            down = rng.choice([[['count', False]], [['scan', ['add'], 0, False, None]], [['scan', ['add'], 0, True, None]], [['last']],
+                               [['first']], [['take', 2]], [['take', 5]], [['lag', 1]], [['lag', 2]], [['distinct', None]], [['duc', None]],
+                               [['pad_start', 1, None]], [['pad_end', 1, None]], [['start_with', [7]]], [['to_list']], [['batch', 2]],
+                               [['assert1', 'ne']], [['identity'], ['count', True]],
+                               [['roll', 2, 1, [['count', True]]]], [['roll', 2, 2, [['last']]]], [['split', ['mod', 2], [['to_list']]]],
+                               [['group_by', ['mod', 2], [['count', False]]]], [['tee', 'merge', [[['count', False]], [['last']]]]],
+                               [['tee', 'zip', [[], [['scan', ['add'], 0, False, None]]]]]])
+        else:
+            down = down if h else []
+        pipe = op + ([h] if h else []) + down
         items = muxgen.gen_items(rng, n=rng.choice([1, 2, 3, 5, 8, 13]))
         if kind == 'filter':
             # predicate result of a non-raising call is the item itself: keep items truthy/falsy mixed
